@@ -160,6 +160,7 @@ func c05Shape(c c05Case) (labels []string, nt bool) {
 }
 
 func checkC05(c c05Case, ctx *vCtx) *vFailure {
+	vLocalChangedBy = ""
 	labels, nt := c05Shape(c)
 	for _, l := range labels {
 		ctx.Label(l)
@@ -240,7 +241,9 @@ func checkC05(c c05Case, ctx *vCtx) *vFailure {
 			// the same files under a depth limit of 1 (resolution fails as soon as a recipe is nested): a failed run must
 			// leave nothing behind either
 			{"-d", f.Book, "-l", f.Log, "csv", "database-resolved"}, {"-d", f.Book, "-l", f.Log, "reg"}, {"-d", f.Book, "-l", f.Log, "bal", "-s", c.Element},
-			{"-d", f.Book, "-l", f.Log, "--maxdepth", "2", "report", "element-total", c.Element}} {
+			{"-d", f.Book, "-l", f.Log, "--maxdepth", "2", "report", "element-total", c.Element},
+			// period values that are not in the date layout (phrases the program reads as natural language, or rejects)
+			{"-d", f.Book, "-l", f.Log, "reg", "-b", "2 days ago"}, {"-d", f.Book, "-l", f.Log, "-e", "last monday", "bal"}, {"-d", f.Book, "-l", f.Log, "summary", "no such day"}} {
 			_ = vRunApp(vInvocation{Args: pc, Env: env})
 			ctx.Run(1)
 		}
@@ -255,6 +258,9 @@ func checkC05(c c05Case, ctx *vCtx) *vFailure {
 			if r.Stdout != first.Stdout || r.Failed != first.Failed || r.Err != first.Err {
 				return vFailSig("C05/state-between-invocations", "%v: the result changed after other invocations ran in the same process under other settings (environment %v).\n--- before: failed=%v err=%q\n%s\n--- after: failed=%v err=%q\n%s", cmds[ci], env, first.Failed, first.Err, vTrunc(first.Stdout, 1200), r.Failed, r.Err, vTrunc(r.Stdout, 1200))
 			}
+		}
+		if vLocalChangedBy != "" {
+			return vFailSig("C05/state-between-invocations", "the invocation %s changed the time zone of the process (time.Local): every later invocation in the same process reads and prints dates in another zone than its environment says", vLocalChangedBy)
 		}
 		ctx.Label("rerun-after-other-settings")
 	}
